@@ -33,7 +33,7 @@ let executed (d : doc_d) : int list =
   if d.cram then List.init n (fun i -> i) else begin
     let rec go i = if i >= n then [] else if d.tests.[i] = 'S' || d.tests.[i] = 'T' then [i] else i :: go (i + 1) in go 0
   end
-let nexps c = match c with 'P' | 'O' | 'C' | 'N' -> 1 | _ -> 0
+let nexps c = match c with 'P' | 'V' | 'O' | 'C' | 'N' -> 1 | _ -> 0
 let dollar_line (d : doc_d) (t : int) : int =
   let rec go u acc = if u >= t then acc else go (u + 1) (acc + 6 + nexps d.tests.[u]) in go 0 0 + 4
 
